@@ -5263,10 +5263,12 @@ func (l *Lowerer) lowerLocalConst(decl *parser.ConstDecl, target *[]ir.Statement
 	var explicitType ir.TypeHandle
 	hasExplicitType := false
 	if decl.Type != nil {
-		if th, typeErr := l.resolveType(decl.Type); typeErr == nil {
-			explicitType = th
-			hasExplicitType = true
+		th, typeErr := l.resolveType(decl.Type)
+		if typeErr != nil {
+			return typeErr
 		}
+		explicitType = th
+		hasExplicitType = true
 	}
 
 	// For abstract local const declarations (no explicit type, abstract init),
@@ -8114,10 +8116,12 @@ func (l *Lowerer) lowerMatrixScalarConstruct(cons *parser.ConstructExpr, target 
 	// Determine scalar type: try resolve from type params, or infer from first arg
 	matScalar := ir.ScalarType{Kind: ir.ScalarFloat, Width: 4} // default float
 	if len(nt.TypeParams) > 0 {
-		if scalarH, err := l.resolveType(nt.TypeParams[0]); err == nil {
-			if st, ok := l.module.Types[scalarH].Inner.(ir.ScalarType); ok {
-				matScalar = st
-			}
+		scalarH, err := l.resolveType(nt.TypeParams[0])
+		if err != nil {
+			return 0, err
+		}
+		if st, ok := l.module.Types[scalarH].Inner.(ir.ScalarType); ok {
+			matScalar = st
 		}
 	} else if len(name) == 7 && (name[6] == 'f' || name[6] == 'h') {
 		// mat2x2f → f32, mat2x2h → f16
